@@ -530,9 +530,27 @@ func sourcesWithFacts(v ssa.Value, scope []*ssa.Function) []srcAt {
 // another result of the same call (a bool flag, or a comparison with nil) that the constant returned there
 // contradicts rules the return out.
 func feasibleReturn(cl *ssa.Call, ret *ssa.Return, facts []flow.Fact) bool {
+	return feasibleReturnVia(cl, ret, facts, nil)
+}
+
+// resultAlias: on the way being followed, the result `inner` of a call made inside a helper is what the helper's
+// caller sees as `outer` (the helper ends in `return inner(...)`, or returns some of inner's results).
+type resultAlias struct {
+	inner *ssa.Extract
+	outer ssa.Value
+}
+
+// feasibleReturnVia is feasibleReturn for a call whose results are handed on by the helper(s) around it: a fact
+// about a value that an alias identifies with a result of cl counts as a fact about that result.
+func feasibleReturnVia(cl *ssa.Call, ret *ssa.Return, facts []flow.Fact, alias []resultAlias) bool {
 	resOf := func(v ssa.Value) (int, bool) {
 		if ex, ok := v.(*ssa.Extract); ok && ex.Tuple == ssa.Value(cl) {
 			return ex.Index, true
+		}
+		for _, a := range alias {
+			if a.outer == v && a.inner.Tuple == ssa.Value(cl) {
+				return a.inner.Index, true
+			}
 		}
 		return 0, false
 	}
@@ -582,12 +600,13 @@ func sourcesWithFactsAt(v ssa.Value, scope []*ssa.Function, base []flow.Fact) []
 		n int
 	}
 	seen := map[key]bool{}
-	var rec func(v ssa.Value, facts []flow.Fact, depth int)
-	rec = func(v ssa.Value, facts []flow.Fact, depth int) {
+	var recA func(v ssa.Value, facts []flow.Fact, alias []resultAlias, depth int)
+	recA = func(v ssa.Value, facts []flow.Fact, alias []resultAlias, depth int) {
 		if v == nil || depth > 10 || seen[key{v, len(facts)}] {
 			return
 		}
 		seen[key{v, len(facts)}] = true
+		rec := func(v ssa.Value, facts []flow.Fact, depth int) { recA(v, facts, alias, depth) }
 		with := func(extra []flow.Fact) []flow.Fact {
 			return append(append([]flow.Fact{}, facts...), extra...)
 		}
@@ -618,10 +637,26 @@ func sourcesWithFactsAt(v ssa.Value, scope []*ssa.Function, base []flow.Fact) []
 					known := flow.Expand(append(append([]flow.Fact{}, base...), facts...))
 					for _, b := range sc.Blocks {
 						if ret, ok := b.Instrs[len(b.Instrs)-1].(*ssa.Return); ok && x.Index < len(ret.Results) {
-							if !feasibleReturn(cl, ret, known) {
+							if !feasibleReturnVia(cl, ret, known, alias) {
 								continue
 							}
-							rec(ret.Results[x.Index], with(flow.FactsAt(b)), depth+1)
+							// what this return hands on from a call of its own is, on this way, what cl's caller sees
+							al := alias
+							for j, r := range ret.Results {
+								if in, isEx := r.(*ssa.Extract); isEx {
+									for _, a := range alias {
+										if a.inner.Tuple == ssa.Value(cl) && a.inner.Index == j {
+											al = append(al[:len(al):len(al)], resultAlias{in, a.outer})
+										}
+									}
+									for _, r2 := range ssau.Referrers(cl) {
+										if ex, isE := r2.(*ssa.Extract); isE && ex.Index == j {
+											al = append(al[:len(al):len(al)], resultAlias{in, ex})
+										}
+									}
+								}
+							}
+							recA(ret.Results[x.Index], with(flow.FactsAt(b)), al, depth+1)
 						}
 					}
 					return
@@ -645,7 +680,7 @@ func sourcesWithFactsAt(v ssa.Value, scope []*ssa.Function, base []flow.Fact) []
 		}
 		out = append(out, srcAt{v, facts})
 	}
-	rec(v, nil, 0)
+	recA(v, nil, nil, 0)
 	return out
 }
 
